@@ -78,7 +78,7 @@ class LoopModel:
             return s["id"], s["name"], None
         return None, None, None
 
-    def run(self, v, st=None, upto_match_only=False, bind=None):
+    def run(self, v, st=None, upto_match_only=False, bind=None, keep=None):
         """evaluate the loop body with the opcode forced to v -> list of (value, St)"""
         ev = self.ev
         st = st or symex.St()
@@ -92,6 +92,8 @@ class LoopModel:
         for i, stmt in enumerate(stmts):
             if i == self.idx:
                 acc = [self._force(s, v, owner) for s in acc]
+            elif keep is not None and i < self.idx and not keep(stmt):
+                continue
             fake = {"k": "block", "stmts": [stmt], "tail": None, "ty": "()"}
             nxt = []
             for s in acc:
